@@ -24,6 +24,9 @@ type PropConfig struct {
 	Assumptions []string `json:"assumptions"`
 	Bounded     []BoundedSpec `json:"bounded"`
 	Replays     []ReplaySpec  `json:"replays"`
+	// IndexPatterns: quantifiers over one integer that indexes slices get the
+	// element reads as explicit triggers (opt-in per property).
+	IndexPatterns bool `json:"index_patterns"`
 }
 
 type BoundedSpec struct {
@@ -120,6 +123,10 @@ func cmdCheck(argv []string) int {
 		return 2
 	}
 	var cfg PropConfig
+	defer func() { indexPatterns = false }()
+	if err := json.Unmarshal(cfgData, &cfg); err == nil {
+		indexPatterns = cfg.IndexPatterns
+	}
 	if err := json.Unmarshal(cfgData, &cfg); err != nil {
 		fmt.Fprintf(os.Stderr, "govc: %v\n", err)
 		return 2
